@@ -105,7 +105,7 @@ def run_verus_crate(cname, cdef, outdir, threads, extra_args=()):
         return res
     res.meta, res.gen_path = meta, gen_path
     res.expect_fail = cdef.get("expect_fail", [])
-    args = ["verus", "gen.rs", "--output-json", "--time", "--error-format=json"]
+    args = ["verus", "gen.rs", "--output-json", "--time", "--error-format=json", "--multiple-errors", "8"]
     if "--num-threads" not in cdef.get("args", []):
         args += ["--num-threads", str(threads)]
     args += cdef.get("args", []) + list(extra_args)
@@ -245,6 +245,9 @@ def main(argv):
     if can.status != "fail" or not exp.issubset(got):
         undecided.append(f"canary did not fail as expected (status={can.status} {can.reason}; failed={sorted(got)}): tool chain unsound or broken")
     obligations, discharged, samples, trusted, funcs_under_contract = 0, 0, [], [], []
+    known_all = load_known()
+    known_for = [f for f in known_all.get("findings", []) if f.get("property") == pid]
+    known_obligs = set(k.get("obligation") for k in known_all.get("findings", []) if k.get("property") == pid)
     rewrites, assumptions = [], []
     smt_ms, checker_cmds = 0, []
     other_failures = []
@@ -271,8 +274,10 @@ def main(argv):
             else:
                 other_failures.append(f"{c}:{fl['function']}: {fl['message']} (tags {fl['tags']}, not {pid})")
         for f in mine:
-            obligations += 1
             short = f["function"].split("::")[-1]
+            if short in known_obligs:
+                continue  # carries only a clause recorded as a known finding; reported separately, never counted as discharged
+            obligations += 1
             if f["ok"] and short not in failed_names:
                 discharged += 1
             if len(samples) < 400:
@@ -309,8 +314,6 @@ def main(argv):
         elif k["status"] == "undecided":
             undecided.append(f"kani {k['harness']}: {k.get('reason','')}")
 
-    known = load_known()
-    known_for = [f for f in known.get("findings", []) if f.get("property") == pid]
     real_violations = []
     for (c, fl) in violations:
         match = None
@@ -344,6 +347,7 @@ def main(argv):
             explanation=pdef.get("explanation", ""),
             bounded=[k["harness"] for k in kani_results if k.get("bounded")],
             not_covered=pdef.get("not_covered", []),
+            known_findings=[k["what"] for k in known_for],
         ),
         assumptions=sorted(set(assumptions)) + pdef.get("assumptions", []),
         wall_s=round(wall, 2), violations=len(real_violations),
